@@ -55,7 +55,8 @@ class C10(C03):
                 ins.append({"s": s, "b": rng.choice(c04mod.BEHS), "n": b(rng.choice(VARS)), "v": b(rng.choice([b"/opt/y", b"", b":"]))})
             steps = [{"op": "write", "ins": ins}, {"op": "read", "probes": self.probes10()}, {"op": "read_write"},
                      {"op": "read_write"}, {"op": "read", "probes": self.probes10()[3:9]}]
-            cases.append({"init": self.base_tree(extra), "dir": LAYER, "steps": steps, "assign": list(assign)})
+            cases.append({"init": self.base_tree(extra), "dir": LAYER, "steps": steps, "assign": list(assign),
+                          "dot_dir": len(cases) % 4 == 1})
         if tier == "thorough":
             for _ in range(1500):
                 assign = [rng.choice(KINDS) for _ in range(4)]
@@ -69,6 +70,7 @@ class C10(C03):
     def shrink(self, c):
         for cand in super().shrink(c):
             cand["assign"] = c.get("assign", [])
+            cand["dot_dir"] = c.get("dot_dir", False)
             yield cand
 
     def distribution(self, cases, obs):
